@@ -21,7 +21,11 @@
 (*            an undriven run: exact-equality flags (bitwise) and the      *)
 (*            classes of the time steps recorded since the previous frame; *)
 (*            dev = largest deviation of any field from the uniform state  *)
-(*            in fine quanta (1e-12)                                       *)
+(*            in fine quanta (1e-12); seeded = the rounding seed of the    *)
+(*            call site `psi_laplacian @ psi` at psi = 1 exceeds half an   *)
+(*            ulp of 1.0 for the largest step of the run, i.e. the         *)
+(*            assembled Laplacian CAN move psi off 1.0 in one step         *)
+(*            (computed from the real operators of the run)                *)
 (*            ("init" = dt_init, "max" = dt_max, "other")                  *)
 (* Header: T.cfg = [adaptive, window, driven, screening].                  *)
 (* Guarded = TRUE: the clauses guard the actions (accepted iff all hold);  *)
@@ -31,6 +35,7 @@
 EXTENDS Integers, Sequences, FiniteSets, TLC, Json, IOUtils, TLCExt
 
 CONSTANTS Guarded,
+          Known,      \* TRUE: the bitwise clause is demanded modulo the open known finding (see ExactlyStationaryModKnown)
           Tol,        \* fine quanta  (1e-12 each): conservation defect
           CTol        \* coarse quanta (1e-6 each)
 
@@ -70,6 +75,13 @@ TerminalInflowEqualsRequestedAt(e) == \A n \in 1..Len(e.terms) : TermOK(e.terms[
 
 \* C17: psi = 1 bitwise, mu = 0, no supercurrent, no normal current, no induced potential
 ExactlyStationaryAt(e) == e.psi1 /\ e.mu0 /\ e.js0 /\ e.jn0 /\ e.ind0
+\* Open known finding C17:rounding-seed: the rows of the assembled covariant Laplacian do not sum to exactly zero in
+\* floating point; where that seed exceeds half an ulp of 1.0 the bitwise clause fails at the last bits.  The clause modulo
+\* the finding demands bit-exactness wherever the seed cannot act (seeded = FALSE); the un-weakened clause stays available.
+\* The finding concerns the amplitude only (psi stays real, so mu, both currents and the induced potential remain exactly 0
+\* on the real code): only the flag psi1 is waived for seeded runs.
+ExactlyStationaryModKnownAt(e) == (e.seeded \/ e.psi1) /\ e.mu0 /\ e.js0 /\ e.jn0 /\ e.ind0
+BitwiseClauseAt(e) == IF Known THEN ExactlyStationaryModKnownAt(e) ELSE ExactlyStationaryAt(e)
 \* a weaker clause kept apart so that a deviation at rounding level (last bits) and a gross one are told apart
 StationaryToRoundingAt(e) == e.dev >= 0 /\ e.dev <= Tol
 
@@ -89,7 +101,7 @@ StepHistoryOK(ph, ni) == /\ ph # "bad"
 
 ---------------------------------------------------------------------------
 Init == /\ tid \in 1..Len(Batch) /\ l = 1 /\ ninit = 0 /\ dtphase = "init" /\ nsteps = 0 /\ seenReq = FALSE
-        /\ ok = <<TRUE, TRUE, TRUE, TRUE, TRUE, TRUE, TRUE>>
+        /\ ok = <<TRUE, TRUE, TRUE, TRUE, TRUE, TRUE, TRUE, TRUE>>
 
 Upd(n, b) == [ok EXCEPT ![n] = ok[n] /\ b]
 
@@ -113,9 +125,10 @@ Cons == /\ l <= NEv /\ Ev.kind = "cons" /\ Ev.step >= 1
 Stat == /\ l <= NEv /\ Ev.kind = "stat"
         /\ LET ph == Phase(dtphase, Ev.dts, 1)
                ni == ninit + CountInit(Ev.dts)
-           IN /\ (Guarded => ExactlyStationaryAt(Ev) /\ StepHistoryOK(ph, ni) /\ StationaryToRoundingAt(Ev))
+           IN /\ (Guarded => BitwiseClauseAt(Ev) /\ StepHistoryOK(ph, ni) /\ StationaryToRoundingAt(Ev))
               /\ ok' = [ok EXCEPT ![5] = ok[5] /\ ExactlyStationaryAt(Ev), ![6] = ok[6] /\ StepHistoryOK(ph, ni),
-                                  ![7] = ok[7] /\ StationaryToRoundingAt(Ev)]
+                                  ![7] = ok[7] /\ StationaryToRoundingAt(Ev),
+                                  ![8] = ok[8] /\ ExactlyStationaryModKnownAt(Ev)]
               /\ dtphase' = ph /\ ninit' = ni /\ nsteps' = nsteps + Len(Ev.dts)
         /\ l' = l + 1 /\ UNCHANGED <<tid, seenReq>>
 
@@ -138,13 +151,14 @@ TerminalInflowEqualsRequested == ok[4]
 ExactlyStationary == ok[5]
 StepGrowsToMax == ok[6]
 StationaryToRounding == ok[7]
+ExactlyStationaryModKnown == ok[8]
 
 Done == l = NEv + 2
 \* non-vacuity of a driven run's trace: some checked frame carried a requested current
 NonVacuous == (Done /\ T.cfg.driven) => seenReq
 
 Bit(b) == IF b THEN 0 ELSE 1
-Diagnosis == Done => PrintT(<<"CLAUSES", tid, Bit(ok[1]), Bit(ok[2]), Bit(ok[3]), Bit(ok[4]), Bit(ok[5]), Bit(ok[6]), Bit(ok[7])>>)
+Diagnosis == Done => PrintT(<<"CLAUSES", tid, Bit(ok[1]), Bit(ok[2]), Bit(ok[3]), Bit(ok[4]), Bit(ok[5]), Bit(ok[6]), Bit(ok[7]), Bit(ok[8])>>)
 Accepted == Done => PrintT(<<"ACCEPT", tid>>)
 Progress == PrintT(<<"AT", tid, l>>)
 =============================================================================
